@@ -320,8 +320,15 @@ def run_check(pid, spec, args, seed, work, t0):
     if not args.replay and not args.no_evidence and not args.only:
         write_evidence(pid, spec, tier, seed, merged, per_job, wall, len(violations), inconclusive, known)
 
+    seen_summ = set()
     for rp, summ in violations:
-        log("violation:", summ[:500])
+        k = summ[:120]
+        if k in seen_summ or len(seen_summ) >= 4:
+            continue
+        seen_summ.add(k)
+        log("violation:", summ[:700])
+    if len(violations) > len(seen_summ):
+        log("(%d violation reports in total, %d shown)" % (len(violations), len(seen_summ)))
     if violations:
         print("VIOLATION property=%s replay=%s" % (pid, violations[0][0]), flush=True)
         return 1
